@@ -43,6 +43,12 @@ ASSUMPTIONS = [
     "the floats in `_knots`); the knot vector itself is compared with the model's within 1e-9",
     "'inside the boundary knots' is read as lower <= x <= upper and qualifies both non-negativity "
     "and partition of unity (outside, splev extrapolates)",
+    "validation of the bounds: besides inverted explicit pairs, ONE explicit bound on the far side of "
+    "all the data (lower_bound > max(x) or upper_bound < min(x); the other bound is the data range) for "
+    "every degree 0..5 x intercept x side x way of asking for no interior knots (df at its minimum, "
+    "knots=[], both) and with interior knots placed by df, on the fixed vectors and on every generated "
+    "vector (direct and through the formula interface); judged by Spec.C14.validBsArgs (bounds default "
+    "to the data range, lower <= upper)",
     "Polynomial: data with <= degree distinct values (a zero norm: NaN columns) are outside the "
     "statement; there only the columns before the first zero norm are compared",
 ]
@@ -258,6 +264,32 @@ def gen_bs_args(rng, x, valid=True):
             if rng.random() < 0.5:
                 a["df"] = None
     return a, "+".join(sorted(tag))
+
+
+SINGLE_BOUND_HOW = ("df", "knots", "both", "inner")
+
+
+def single_bound_args(rng, x, degree, intercept, side, how):
+    """ONE explicit bound, on the far side of all the data (lower_bound > max(x) or upper_bound <
+    min(x)); the other bound is left to the data range, so the pair is inverted although only one
+    value was written.  `how`: no interior knots, requested through df (= the minimum), through
+    knots=[] or through both; or "inner": interior knots placed by df at the data quantiles."""
+    lo, hi = min(x), max(x)
+    need = degree + 1 - (0 if intercept else 1)
+    a = dict(df=None, knots=None, degree=degree, intercept=intercept, lower=None, upper=None)
+    spread = hi - lo
+    gap = rng.choice([F(1, 4), F(1), F(5), F(1000)] + ([spread / 8, spread * 2] if spread > 0 else []))
+    if side == "lower":
+        a["lower"] = hi + gap
+    else:
+        a["upper"] = lo - gap
+    if how in ("df", "both"):
+        a["df"] = need
+    if how in ("knots", "both"):
+        a["knots"] = []
+    if how == "inner":
+        a["df"] = need + rng.choice([1, 2, 3])
+    return a, f"single_bound_beyond:{side}:{how}"
 
 
 # ------------------------------------------------------------------------------------------------
@@ -973,6 +1005,7 @@ def explore(tier, seed, res=None, replay=None):
                 "later vectors) x one argument combination x one path (direct / formula, the call "
                 "written positionally, by keyword, with defaults left out or with values from the "
                 "namespace); vectors incl. small spreads (rates in [0.01, 0.09]) alone and on an offset; "
+                "bs: also a single explicit bound beyond the data range, with and without interior knots; "
                 "non-trivial = training vector with >= 2 distinct values (center/scale), at least "
                 "one x inside the boundary knots (bs), accepted raw / > degree distinct values "
                 "(poly); distinct by (vector, stored parameters)")
@@ -998,6 +1031,19 @@ def explore(tier, seed, res=None, replay=None):
         for degree in range(0, 8):
             for raw in (False, True):
                 case_poly(run, [(x, degree, raw), (x[:4], degree, raw)], "direct", True)
+    # ---- a single explicit bound beyond the data range: every degree x intercept x side x way of
+    # asking for no interior knots (and with interior knots), on the fixed vectors ----------------
+    rng_sb = rng_for(seed, "c14", "single_bound", "grid")
+    for xi, x in enumerate(fixed):
+        for degree in range(0, 6):
+            for intercept in (False, True):
+                for side in ("lower", "upper"):
+                    for hi_, how in enumerate(SINGLE_BOUND_HOW):
+                        a, tag = single_bound_args(rng_sb, x, degree, intercept, side, how)
+                        case_bs(run, [(x, a), (x[:3] + [x[-1] + 1], a)], tag, "direct")
+                        if (xi + degree + hi_) % 6 == 0:
+                            case_bs(run, [(x, a), (x[:3] + [x[-1] + 1], a)], tag, "formula",
+                                    BS_SPELLINGS[(degree + hi_ + int(intercept)) % len(BS_SPELLINGS)])
     res.exhaustive = True
     run.flush()
 
@@ -1045,6 +1091,15 @@ def explore(tier, seed, res=None, replay=None):
         if rng.random() < 0.05:
             a, tag = gen_bs_args(rng, x, valid=True)
             case_bs(run, [([], a), (x, a)], "empty_x", "direct")
+        # a single explicit bound on the far side of the generated vector (own random stream)
+        if x:
+            rsb = rng_for(seed, "c14", "single_bound", it)
+            for j in range(2):
+                a, tag = single_bound_args(rsb, x, rsb.choice([0, 1, 2, 3, 3, 4, 5]), rsb.random() < 0.5,
+                                           rsb.choice(["lower", "upper"]), rsb.choice(SINGLE_BOUND_HOW))
+                case_bs(run, [(x, a), (later, a)], tag, "direct")
+                if j == 0 and formula and it % 4 == 0:
+                    case_bs(run, [(x, a), (later, a)], tag, "formula", rsb.choice(BS_SPELLINGS))
 
         # ---- poly ------------------------------------------------------------------------------
         x, style = gen_vector(rng, style=rng.choice(["int", "dyadic", "ties", "offset", "wide", "small",
